@@ -68,6 +68,12 @@ func init() {
 		RequirePositive: "cmp:", RequireCount: 93,
 	})
 	reg(&propCfg{
+		ID: "C10", Level: "exploration",
+		Rule: "generated operation histories (Append with batches of 0-5 snapshots incl. empty batches and equal consecutive dates, Get, GetSince with bounds at / one day before / one day after stored dates, LastDate, Assets; 3-4 asset names plus a never-appended one; values = any finite float64 incl. +-MaxFloat64, smallest subnormals, 17-digit decimals; whole-day UTC dates from 2000-01-01; pre-existing zero-byte and header-only CSV files) are applied step by step to the sequential model map[name][]snapshot and to each of the in-memory, file-system (fresh temp dir) and SQL (database/sql over the in-memory fakesql driver and its dialect) repositories; after every step error-ness and contents are compared (Date.Equal, float bits), every Append is followed immediately by a read of the same asset. distinct_nontrivial counts histories with >= 2 appends and >= 3 reads.",
+		Shards: [2]int{16, 16}, MinEvals: [2]int{50, 600},
+		RequirePositive: "ops:", RequireCount: 3,
+	})
+	reg(&propCfg{
 		ID: "C07", Level: "exploration",
 		Rule: "the real And/Or/Majority/Split/Inverse/NoLoss/StopLoss combinators (and nestings NoLoss(StopLoss), StopLoss(NoLoss), Inverse(NoLoss), NoLoss(Inverse), NoLoss(And)) wrap scripted stub strategies that replay chosen action words; the output is compared with slice models of the specified combination (votes over position-wise DENORMALISED words, split rule, swap, explicit no-loss / stop-loss state machines over (action, close)) and, independently, with two trace safety monitors (no Sell at a close not above the preceding Buy's close; a Sell at the first close <= buy*(1-pct)). Exhaustive: all tuples of k words of length n for k=1 (n<=7), k=2 (n<=4), k=3 (n<=2 quick / n<=3 thorough) x 4 closing series x 3 percentages where relevant; plus random words up to length 200 with up to 6 sub-strategies. MACD-RSI is compared with the agreement rule over its own two real sub-strategies. distinct_nontrivial counts distinct (shape, word tuple) cases with n >= 2.",
 		Exhaustive: "all k-tuples of action words over {Sell,Hold,Buy}: k=1 n<=7, k=2 n<=4, k=3 n<=2 (quick) / n<=3 (thorough), for every combinator shape",
